@@ -27,15 +27,25 @@ REPLAY = os.path.join(VERIF, "replay")
 PY = "/venv/bin/python"
 COQ_TIMEOUT = int(os.environ.get("VERIF_COQ_TIMEOUT", "1500"))
 
-sys.path.insert(0, "/repo/src")
+# The registered commands always run against /repo.  VERIF_REPO=<scratch
+# worktree> exists only so that mutation experiments can run in parallel
+# without touching /repo; such runs write their evidence/replay files under
+# build/scratch-* and never into /verif/evidence.
+REPO = os.environ.get("VERIF_REPO", "/repo").rstrip("/")
+SCRATCH = REPO != "/repo"
+if SCRATCH:
+    _tag = hashlib.sha1(REPO.encode()).hexdigest()[:8]
+    EVID = os.path.join(BUILD, "scratch-" + _tag, "evidence")
+    REPLAY = os.path.join(BUILD, "scratch-" + _tag, "replay")
+sys.path.insert(0, REPO + "/src")
 os.environ.setdefault("PYTHONHASHSEED", "0")
 
 
 def assert_repo():
     import prompt_toolkit
     f = os.path.realpath(prompt_toolkit.__file__)
-    if not f.startswith("/repo/src/"):
-        raise SystemExit("prompt_toolkit imported from %s, not /repo/src" % f)
+    if not f.startswith(REPO + "/src/"):
+        raise SystemExit("prompt_toolkit imported from %s, not %s/src" % (f, REPO))
 
 
 # --------------------------------------------------------------------------
@@ -142,7 +152,7 @@ class BuildLock:
 
 def run(cmd, cwd=None, timeout=None, env=None, input=None):
     e = dict(os.environ)
-    e["PYTHONPATH"] = "/repo/src"
+    e["PYTHONPATH"] = REPO + "/src"
     e["PYTHONHASHSEED"] = "0"
     if env:
         e.update(env)
@@ -273,11 +283,18 @@ class ProofResult:
         self.checker_cmd = ""
 
 
-def build_proofs(props_v, jobs=8):
-    """make the .vo closure of coq/<props_v>, then recompile the Props file
-    itself to capture Print Assumptions.  Held under the global build lock."""
+def build_proofs(props_v, jobs=8, tables=()):
+    """Regenerate `tables` from the working tree, make the .vo closure of
+    coq/<props_v>, then recompile the Props file itself to capture Print
+    Assumptions.  All under the global build lock."""
     r = ProofResult()
     with BuildLock():
+        okg, outg = gen_tables(tables)
+        r.gen_ok, r.gen_log = okg, outg
+        if not okg:
+            r.log = outg
+            r.failed_at = ("gen/gen_tables.py", 0, "table generation")
+            return r
         ensure_makefile()
         target = props_v[:-2] + ".vo"
         r.checker_cmd = "cd coq && make -j%d %s && coqc -Q . PTK %s" % (jobs, target, props_v)
@@ -385,12 +402,15 @@ let () =
 '''
 
 
-def build_model(name, extract_v, run_fn):
+def build_model(name, extract_v, run_fn, tables=()):
     """Extract coq/<extract_v> (which must end with `Extraction "<name>_model.ml" ...`)
     and link it with the generic line driver into build/<name>_model.
     Returns (ok, log).  Rebuilt when any .vo in the closure is newer."""
     exe = os.path.join(BUILD, name + "_model")
     with BuildLock():
+        okg, outg = gen_tables(tables)
+        if not okg:
+            return False, outg
         ensure_makefile()
         closure = coq_closure(extract_v)
         deps = [c for c in closure if c != extract_v]
@@ -583,8 +603,8 @@ class Check:
         if n == 0:      # one report per (kind, tags) family: the first (smallest-scope) input found
             self.violations.append({"kind": kind, "what": what, "tags": tags, "replay": replay, "no_input": no_input, "key": key})
 
-    def proofs(self, props_v, theorem_names=None, extra_trusted=()):
-        r = build_proofs(props_v)
+    def proofs(self, props_v, theorem_names=None, extra_trusted=(), tables=()):
+        r = build_proofs(props_v, tables=tables)
         self.coverage["obligations"] = r.obligations
         self.coverage["discharged"] = r.discharged
         self.coverage["checker_cmd"] = r.checker_cmd
